@@ -1687,9 +1687,11 @@ class PyCdlib:
         except pycdlibexception.PyCdlibInvalidInput:
             # dir_record.add_child() may throw a PyCdlibInvalidInput if it was
             # given a duplicate child.  However, we allow duplicate children if
-            # and only the last child is the same; this represents a very large
-            # file.
-            if not child.is_dir():
+            # and only if this is the next extent of a very large (multi-extent)
+            # file, in which case all of the earlier extents are full.  Any
+            # other duplicate name is an error.
+            if not child.is_dir() and any(c.file_ident == child.file_ident and c.data_length == 0xfffff800
+                                          for c in child.parent.children):
                 try_long_entry = True
             else:
                 raise
